@@ -107,11 +107,22 @@ func genC18(r *gen.Rand) *C18Case {
 		in["$parent"] = []any{"base", target("../outside/e", "sub/s")}
 		c.NeedsOutside = !c.Benign
 	case "symlink-relative":
-		w.Links = append(w.Links, procsim.Link{Path: c18Root + "/l.yaml", Target: target("../outside/d.yaml", "base.yaml")})
+		out := "../outside/d.yaml"
+		if r.Chance(0.4) {
+			// a sibling whose name merely begins with the root's name
+			put(c18Root+"-secret/d.yaml", secret(7))
+			out = "../root-secret/d.yaml"
+		}
+		w.Links = append(w.Links, procsim.Link{Path: c18Root + "/l.yaml", Target: target(out, "base.yaml")})
 		in["$parent"] = "l"
 		c.NeedsOutside = !c.Benign
 	case "symlink-absolute":
-		w.Links = append(w.Links, procsim.Link{Path: c18Root + "/l.yaml", Target: target(abs(c18Outside+"/d.yaml"), abs(c18Root+"/base.yaml"))})
+		outAbs := abs(c18Outside + "/d.yaml")
+		if r.Chance(0.4) {
+			put(c18Root+"-secret/d.yaml", secret(7))
+			outAbs = abs(c18Root + "-secret/d.yaml")
+		}
+		w.Links = append(w.Links, procsim.Link{Path: c18Root + "/l.yaml", Target: target(outAbs, abs(c18Root+"/base.yaml"))})
 		in["$parent"] = "l"
 		c.NeedsOutside = !c.Benign
 	case "symlink-chain":
